@@ -441,3 +441,5 @@ def run(repo, chk):
     routing_obligations(repo, chk, "R12.2", "offer")
     from .shared import build_precedence_obligations
     build_precedence_obligations(repo, chk, "R12.3", "a condition written on the outer call (outer(x=1) > inner > x) is checked against the outer variable")
+    from .shared import call_aggregate_obligations
+    call_aggregate_obligations(repo, chk, "R12.3", ["hasval", "all_values"], "conditions written on nested calls are checked like those on the outermost call")
